@@ -60,7 +60,8 @@ def normalize_rotations(rotations: RotationType | None) -> NDArray[np.floating]:
         Corresponding quaternions in shape (N, 4).
     """
     if isinstance(rotations, Rotation):
-        quats = rotations.as_quat(canonical=False)
+        # NOTE: a single (non-stacked) Rotation returns a quaternion of shape (4,)
+        quats = np.atleast_2d(rotations.as_quat(canonical=False))
     elif rotations is not None:
         if not hasattr(rotations, "__iter__"):
             raise TypeError("rotations must be iterable")
